@@ -90,6 +90,8 @@ mod signals;
 pub mod verif_hooks;
 #[cfg(cicada_verif)]
 mod completers;
+#[cfg(cicada_verif)]
+mod highlight;
 
 /// Represents an error calling `exec`.
 pub use crate::types::CommandResult;
